@@ -87,6 +87,21 @@ func (x *c02srcTr) findMethod(recv, name string) *ast.FuncDecl {
 	return nil
 }
 
+// c02srcHasReturn: a return statement anywhere in the body (function literals excluded)
+func c02srcHasReturn(b *ast.BlockStmt) bool {
+	found := false
+	ast.Inspect(b, func(n ast.Node) bool {
+		switch n.(type) {
+		case *ast.FuncLit:
+			return false
+		case *ast.ReturnStmt:
+			found = true
+		}
+		return !found
+	})
+	return found
+}
+
 func c02srcIsTime(t types.Type) bool {
 	s := types.TypeString(t, nil)
 	return s == "time.Time" || s == "time.Duration"
@@ -153,11 +168,19 @@ type c02srcM struct {
 	unit       bool
 	pureFns    map[string]bool // methods of the receiver translated as pure Bool functions
 	boolLocals map[types.Object]bool
+	// receivers of helper methods of the same object that are being inlined (round 6: `s.setFinish(t)` extracted from a
+	// method is read as its body, parameters bound to the arguments)
+	recvAlias map[types.Object]bool
+	inlining  int
 }
 
 func (m *c02srcM) isRecv(e ast.Expr) bool {
 	id, ok := e.(*ast.Ident)
-	return ok && m.recv != nil && m.x.p.TypesInfo.Uses[id] == m.recv
+	if !ok || m.recv == nil {
+		return false
+	}
+	o := m.x.p.TypesInfo.Uses[id]
+	return o == m.recv || (o != nil && m.recvAlias[o])
 }
 
 // value expression (Int or Bool)
@@ -420,6 +443,48 @@ func (m *c02srcM) stmts(list []ast.Stmt, ind string, done func(ind string) strin
 		// s.MarkStarted()
 		if m.isRecv(sel.X) && sel.Sel.Name == "MarkStarted" && len(call.Args) == 0 {
 			return ind + "match StartSync_MarkStarted s with\n" + ind + "| Except.error e => Except.error e\n" + ind + "| Except.ok (_, s) =>\n" + m.stmts(rest, ind+"  ", done)
+		}
+		// s.helper(args…): a method of the same object with Int / time parameters and no results, extracted from this
+		// method: its body in place, parameters bound to the values of the arguments
+		if m.isRecv(sel.X) && m.inlining < 3 {
+			if selInfo := info.Selections[sel]; selInfo != nil && selInfo.Kind() == types.MethodVal {
+				var callee *ast.FuncDecl
+				for _, f := range x.p.Syntax {
+					for _, d := range f.Decls {
+						if fd, ok := d.(*ast.FuncDecl); ok && fd.Body != nil && info.Defs[fd.Name] == selInfo.Obj() {
+							callee = fd
+						}
+					}
+				}
+				if callee != nil && (callee.Type.Results == nil || len(callee.Type.Results.List) == 0) &&
+					len(callee.Recv.List) == 1 && len(callee.Recv.List[0].Names) == 1 && !c02srcHasReturn(callee.Body) {
+					var names []*ast.Ident
+					okParams := true
+					for _, f := range callee.Type.Params.List {
+						ty := info.TypeOf(f.Type)
+						if !(isInt(ty) || c02srcIsTime(ty)) {
+							okParams = false
+						}
+						names = append(names, f.Names...)
+					}
+					if okParams && len(names) == len(call.Args) {
+						pre := ""
+						for i, n := range names {
+							ln := "h_" + mangle(n.Name)
+							pre += ind + "let " + ln + " : Int := " + m.val(call.Args[i]) + "\n"
+							m.locals[info.Defs[n]] = ln
+						}
+						if m.recvAlias == nil {
+							m.recvAlias = map[types.Object]bool{}
+						}
+						m.recvAlias[info.Defs[callee.Recv.List[0].Names[0]]] = true
+						m.inlining++
+						out := pre + m.stmts(append(append([]ast.Stmt{}, callee.Body.List...), rest...), ind, done)
+						m.inlining--
+						return out
+					}
+				}
+			}
 		}
 		if in, ok := sel.X.(*ast.SelectorExpr); ok && m.isRecv(in.X) {
 			ts := types.TypeString(info.TypeOf(in), nil)
